@@ -32,6 +32,8 @@ type knownEnv struct {
 }
 
 func newKnownEnv(t *testing.T) *knownEnv {
+	clientOptions.debug, clientOptions.trace = false, false
+
 	s, err := newSUT()
 	if err != nil {
 		t.Fatalf("VERIF-INCONCLUSIVE: cannot open the database: %v", err)
